@@ -13,8 +13,11 @@ Observed(s, r) ==
     /\ r.eq_same /\ ~r.eq_diff
     /\ r.copy = s
     /\ S!DecodeStringToken(r.ser) = [ok |-> TRUE, bytes |-> s]
+\* "newbig": a node made from a C string longer than INT_MAX (a probe beside the node under test): the length accessor is an
+\* int, so either the constructor refuses or the length it reports is the count of the bytes
 StepOfImpl(s, r) ==
-    IF r.op = "delete" THEN [ok |-> r.leak = 0, st |-> <<>>]
+    IF r.op = "newbig" THEN [ok |-> ~r.created \/ r.len_is_count, st |-> s]
+    ELSE IF r.op = "delete" THEN [ok |-> r.leak = 0, st |-> <<>>]
     ELSE LET x == S!CallStep(s, r) IN
          IF x.ok THEN [ok |-> Observed(x.s, r), st |-> x.s] ELSE [ok |-> FALSE, st |-> s]
 TraceLog == ndJsonDeserialize(IOEnv.TRACE)
